@@ -22,6 +22,9 @@ ENCODED = [
     "tdgl.solution.solution:Solution.to_hdf5",
     "tdgl.solution.data:TDGLData.from_hdf5",
     "tdgl.solution.data:DynamicsData.from_hdf5",
+    "tdgl.solution.data:DynamicsData.to_hdf5",
+    "tdgl.solution.data:TDGLData.to_hdf5",
+    "tdgl.solution.solution:Solution.delete_hdf5",
     "tdgl.device.device:Device.to_hdf5",
     "tdgl.device.device:Device.from_hdf5",
     "tdgl.finite_volume.mesh:Mesh.to_hdf5",
@@ -213,3 +216,49 @@ def body_solution(H, case, work):
     H.prove("applied vector potential parameter equal", loaded.applied_vector_potential == sol.applied_vector_potential)
     H.prove("terminal currents equal", loaded.terminal_currents == sol.terminal_currents)
     H.prove("units round-trip", loaded.field_units == "uT" and loaded.current_units == "nA")
+    same_dynamics(H, "solver-written file", loaded.dynamics, sol.dynamics)
+    # ---- Solution.to_hdf5: a copy of the file, then a stand-alone file written after the original is gone ----
+    sol.load_tdgl_data(hi)
+    copy_path = work + "/copy.h5"
+    sol.to_hdf5(copy_path)
+    copied = Solution.from_hdf5(copy_path)
+    same_solution(H, "copied file", copied, sol, expected)
+    sol.delete_hdf5()
+    H.prove("after delete_hdf5 the solution is no longer on disk", not sol.saved_on_disk)
+    alone_path = work + "/alone.h5"
+    sol.to_hdf5(alone_path)
+    alone = Solution.from_hdf5(alone_path)
+    same_solution(H, "stand-alone file", alone, sol, expected)
+
+
+def same_dynamics(H, tag, got, want):
+    for nm in ("dt", "mu", "theta", "screening_iterations"):
+        a, b = getattr(got, nm), getattr(want, nm)
+        H.prove(f"{tag}: per-step record {nm} present iff it was recorded", (a is None) == (b is None))
+        if a is not None and b is not None:
+            same_array(H, f"{tag}: per-step record {nm} identical", a, b)
+
+
+def same_solution(H, tag, got, want, expected):
+    import dataclasses
+
+    have = dataclasses.asdict(got.options)
+    ok = True
+    for key, w in expected.items():
+        h = have[key]
+        if key in ("sparse_solver",):
+            ok = ok and getattr(h, "value", h) == getattr(w, "value", w)
+        elif w is None or h is None or isinstance(w, (bool, str)):
+            ok = ok and ((w is None and h is None) or (type(w) == type(h) and w == h))
+        elif hasattr(w, "re") or hasattr(h, "re"):
+            ok = ok and str(getattr(h, "re", h)) == str(getattr(w, "re", w))
+        elif key != "output_file":
+            ok = ok and bool(h == w)
+    H.prove(f"{tag}: every option round-trips", ok)
+    H.prove(f"{tag}: device equal", got.device == want.device)
+    H.prove(f"{tag}: loaded step is the saved step", got.tdgl_data.step == want.tdgl_data.step)
+    for nm in ("psi", "mu", "supercurrent", "normal_current", "applied_vector_potential", "induced_vector_potential", "epsilon"):
+        same_array(H, f"{tag}: {nm} identical", getattr(got.tdgl_data, nm), getattr(want.tdgl_data, nm))
+    H.prove_eq(f"{tag}: recorded time identical", got.tdgl_data.state["time"], want.tdgl_data.state["time"])
+    same_dynamics(H, tag, got.dynamics, want.dynamics)
+    H.prove(f"{tag}: drive equal", got.applied_vector_potential == want.applied_vector_potential and got.terminal_currents == want.terminal_currents)
